@@ -709,7 +709,8 @@ class Exec:
 
     def ev_Name(self, e):
         n = e.id
-        if n in self.poisoned:
+        if n in self.poisoned and not isinstance(self.env.get(n), SSet):
+            # (a set holds hashable, hence immutable, elements: no mutation through an alias can change it)
             raise Unsupported('read of %s after a mutation through an alias (line %s)' % (n, e.lineno))
         if n in self.env:
             return self.env[n]
@@ -1571,6 +1572,11 @@ class Exec:
         rhs = self.ev(st.value)
         fake = ast.BinOp(left=ast.Constant(value=0), op=st.op, right=ast.Constant(value=0))
         ast.copy_location(fake, st)
+        if isinstance(cur, SObj) and cur.cls == 'Graph' and isinstance(st.op, (ast.BitOr, ast.Sub)):
+            # g |= other / g -= other on graphs: the in-place method, by its contract
+            meth = '__ior__' if isinstance(st.op, ast.BitOr) else '__isub__'
+            self.call_contract('penman.graph', 'Graph.' + meth, ([rhs], {}), st, self_obj=cur)
+            return
         if isinstance(st.op, ast.Add):
             if isinstance(cur, V) and isinstance(rhs, V):
                 res = self.add(cur, rhs, st)
